@@ -1,13 +1,18 @@
 (* C15 - session variables substitute exactly, per connection. *)
 From FS Require Import Sexp Vars VarsProofs.
 
+(* inline_variables cuts the statement into pieces (_split_protected, fix 83dbaa3): complete string literals,
+   quoted identifiers, $$strings$$ and comments are handed on untouched, every other piece goes through inline_text.
+   Theorems about inline_text speak about one piece of SQL text proper; plain_is_text lifts them to whole statements without
+   literals/comments, literal_protected says what happens around a literal. *)
+
 (* The sequential regex substitution of variables.py equals the one-pass expansion "every $word
    stands for the value of the variable of that name (any letter case)", for every text built from
    '$'-free literal segments and references, every set of word-named variables - including names
    that are prefixes of each other - with '$'-free values. *)
 Theorem inline_is_expand : forall vs segs,
   vars_ok vs = true -> wf segs = true -> forallb (defined vs) segs = true ->
-  inline_variables vs (render segs) = inl (render (expand vs segs)).
+  inline_text vs (render segs) = inl (render (expand vs segs)).
 Proof. exact inline_is_expand_l. Qed.
 Print Assumptions inline_is_expand.
 
@@ -15,14 +20,40 @@ Print Assumptions inline_is_expand.
 Theorem undefined_raises_first : forall vs pre w post,
   vars_ok vs = true -> wf (pre ++ Ref w :: post) = true ->
   forallb (defined vs) pre = true -> lookup vs w = None ->
-  inline_variables vs (render (pre ++ Ref w :: post)) = inr (upper (dollar :: w)).
+  inline_text vs (render (pre ++ Ref w :: post)) = inr (upper (dollar :: w)).
 Proof. exact undefined_raises_l. Qed.
 Print Assumptions undefined_raises_first.
 
 Theorem non_reference_text_untouched : forall vs s, dollar_free s = true ->
-  inline_variables vs s = inl s.
+  inline_text vs s = inl s.
 Proof. exact non_reference_text_untouched_l. Qed.
 Print Assumptions non_reference_text_untouched.
+
+(* nothing is lost or invented by the cutting *)
+Theorem split_concat : forall s, concat (map snd (split_protected s)) = s.
+Proof. exact split_concat_l. Qed.
+Print Assumptions split_concat.
+
+Theorem plain_is_text : forall vs s, plainb s = true -> inline_variables vs s = inline_text vs s.
+Proof. exact plain_is_text_l. Qed.
+Print Assumptions plain_is_text.
+
+(* a string literal is handed on character for character, whatever variable references stand before and after it; a '$name'
+   inside it is neither substituted nor reported as undefined *)
+Theorem literal_protected : forall vs pre body post, plainb pre = true ->
+  forallb (fun c => negb (c =? c_sq) && negb (c =? c_bs)) body = true ->
+  (match post with d :: _ => d <> c_sq | [] => True end) ->
+  inline_variables vs (pre ++ sq_literal body ++ post) =
+  match inline_text vs pre with
+  | inr e => inr e
+  | inl p' => match inline_variables vs post with inl o => inl (p' ++ sq_literal body ++ o) | inr e => inr e end
+  end.
+Proof. exact literal_protected_l. Qed.
+Print Assumptions literal_protected.
+
+Example cost_literal_untouched : forall vs, inline_variables vs (lit "select 'cost $5'") = inl (lit "select 'cost $5'").
+Proof. exact cost_literal_untouched_l. Qed.
+Print Assumptions cost_literal_untouched.
 
 (* SET/UNSET/use on one connection never changes the variables of another *)
 Theorem per_connection : forall st o c', conn_of o <> c' -> sget (fst (vstep st o)) c' = sget st c'.
@@ -41,6 +72,6 @@ Example inline_holds_somewhere :
   let vs := [(lit "VAR1", lit "5"); (lit "VAR10", lit "'x y'"); (lit "A_B", lit "1 + 2")] in
   let segs := [Lit (lit "select "); Ref (lit "var10"); Lit (lit ", "); Ref (lit "Var1"); Lit (lit "+"); Ref (lit "a_b")] in
   vars_ok vs = true /\ wf segs = true /\ forallb (defined vs) segs = true /\
-  inline_variables vs (render segs) = inl (lit "select 'x y', 5+1 + 2").
+  inline_text vs (render segs) = inl (lit "select 'x y', 5+1 + 2").
 Proof. exact inline_nonvacuous. Qed.
 Print Assumptions inline_holds_somewhere.
